@@ -9,8 +9,10 @@ package main
 //	        (x, y: one byte in hex; tails in hex, - = empty): FastLCSEGFScoreByte(A, B, e, egf, nil)
 //	                                                                                 -> "score length end"
 //
-// _notavail / _out carry the length 30000 and the path length lives in a 16-bit field. The theorems of Props/C09.lean
-// need |a| + |b| < 30000; fastLCS_length_bound_needed shows that the bound cannot be dropped. These cases run the real
+// _notavail / _out carry the length 30000 and the path length lives in a 16-bit field. The first theorems of
+// Props/C09.lean need |a| + |b| < 30000; the third pass proves the true frontier LenOK (both sequences <= 30000, or
+// |a|+|b| <= 65534 with an explicit bound <= 14999: fastLCS_exact_long); fastLCS_length_bound_needed(_explicit) show
+// that the kernel is wrong beyond it. These cases run the real
 // kernel below, at and above the bound; the model (which has the real field widths) must reproduce every answer,
 // right or wrong. The oracle is the naive full-matrix DP. The one deviation that is a KNOWN limit of the code (a
 // sequence longer than 30000: score right, alignment length understated) has its own signature
@@ -78,6 +80,22 @@ func c09LongCorpus(thorough bool) []string {
 		"lcslong 63 2000 6161 63 1998 6161 2 1",
 		"lcslong 63 2000 6161 63 1998 6167 2 1",
 	}
+	// third pass: the TRUE frontier (Props/C09.lean, LenOK): both sequences <= 30000 with any bound, or
+	// |a|+|b| <= 65534 with an explicit bound <= 14999; beyond it: a sequence longer than 30000 with no bound or a
+	// bound >= its length (fastLCS_length_bound_needed / _explicit)
+	c = append(c,
+		"lcslong 63 29999 61 00 0 61 -1 0",      // |A| = 30000 exactly, no bound: exact (1,30000)
+		"lcslong 63 29999 61 00 0 67 -1 0",      // no match: (0,30000)
+		"lcslong 63 29999 61 00 0 61 30000 0",   // explicit bound as large as the sequence
+		"lcslong 61 30001 - 00 0 - 30001 0",     // instance of fastLCS_length_bound_needed_explicit: (0,30000)
+		"lcslong 61 30001 - 00 0 - 30000 0",     // length difference beyond the bound: early return
+		"lcslong 63 30000 61 00 0 61 40000 0",   // |A| = 30001, explicit bound: length understated
+		"lcslong 63 32000 61 63 32000 61 3 0",   // both longer than 30000, identical, narrow band: LenOK, exact
+		"lcslong 63 32000 61 63 32000 67 3 0",   // one substitution at the end
+		"lcslong 63 32000 61 63 32000 67 0 0",   // the same with the bound 0: beyond the bound
+		"lcslong 63 32766 61 63 32766 61 0 0",   // |a|+|b| = 65534: the last length the 16-bit field argument covers
+		"lcslong 63 30001 61 63 30001 61 2 1",   // endgapfree, both longer than 30000, identical
+	)
 	if thorough {
 		c = append(c,
 			"lcslong 63 20000 61 63 19998 61 2 1",
@@ -86,6 +104,29 @@ func c09LongCorpus(thorough bool) []string {
 		)
 	}
 	return c
+}
+
+// c09PlainEqualUpTo: the first n bytes of a and b are equal and all in acgt
+func c09PlainEqualUpTo(a, b []byte, n int) bool {
+	for i := 0; i < n; i++ {
+		if a[i] != b[i] || !strings.ContainsRune("acgt", rune(a[i])) {
+			return false
+		}
+	}
+	return true
+}
+
+// c09RunOf: s is a non-empty run of one symbol
+func c09RunOf(s []byte) bool {
+	if len(s) == 0 {
+		return false
+	}
+	for _, c := range s {
+		if c != s[0] {
+			return false
+		}
+	}
+	return true
 }
 
 func c09ExecLong(f []string, fail c09Failer) string {
@@ -105,6 +146,12 @@ func c09ExecLong(f []string, fail c09Failer) string {
 		stat("lcslong:|a|+|b| >= 30000, each <= 30000")
 	default:
 		stat("lcslong:|a|+|b| < 30000 (theorems apply)")
+	}
+	lenOK := la+lb <= 65534 && (max(la, lb) <= 30000 || (e != -1 && e <= 14999))
+	if lenOK {
+		stat("lcslong:LenOK (fastLCS_exact_long applies when endgapfree = false)")
+	} else {
+		stat("lcslong:beyond LenOK")
 	}
 	s, l, end, pan := c09Kernel(a, b, e, egf, nil)
 	if pan != "" {
@@ -126,11 +173,28 @@ func c09ExecLong(f []string, fail c09Failer) string {
 			fail("lcslong.asymmetric", "%s: (A,B) gives (%d,%d), (B,A) gives (%d,%d)", pair, s, l, s3, l3)
 		}
 	}
-	if !c09AllIupac(a) || !c09AllIupac(b) || la*lb > 450000000 {
+	var ws, wl int
+	switch {
+	case !c09AllIupac(a) || !c09AllIupac(b):
+		stat("lcslong:no-oracle")
+		return fmt.Sprintf("%d %d %d", s, l, end)
+	case la*lb <= 450000000:
+		ws, wl = c09Naive(a, b, egf)
+	case la == lb && c09PlainEqualUpTo(a, b, la):
+		// too large for the full matrix: identical plain sequences, optimum (n, n) in both modes
+		stat("lcslong:analytic oracle (identical sequences)")
+		ws, wl = la, la
+	case la == lb && c09PlainEqualUpTo(a, b, la-1) && c09RunOf(a[:la-1]) && !c09CompatByte(a[la-1], b[la-1]) &&
+		!c09CompatByte(a[la-1], a[0]) && !c09CompatByte(b[la-1], a[0]):
+		// x^n p against x^n q with p, q, x pairwise incompatible: LCS n, shortest alignment n+1 (one mismatch column);
+		// end-gap-free: the last symbol of the longer (first) sequence is a free overhang only if the other one
+		// is then aligned against a gap: still n+1 columns
+		stat("lcslong:analytic oracle (one substitution at the end)")
+		ws, wl = la-1, la
+	default:
 		stat("lcslong:no-oracle")
 		return fmt.Sprintf("%d %d %d", s, l, end)
 	}
-	ws, wl := c09Naive(a, b, egf)
 	cls := "ne"
 	if egf {
 		cls = "egf"
